@@ -71,7 +71,9 @@ FramingsTE == {"chunked_ok", "chunked_trunc_size", "chunked_trunc_data", "chunke
                "chunked_neg_size", "chunked_huge_ext"}
 Framings == FramingsCL \cup FramingsTE
 Codings == {"none", "supported", "unsupported", "corrupt"}
-PrefixPaths == {"unknown_prefix", "root", "no_path"}          \* decided by the HTTP handler
+\* "escaped_prefix": an unknown first path element written with percent-escapes (non-latin-1 text, an invalid UTF-8
+\* byte, CR LF): whatever the handler decodes must not reach the status line / the headers of the answer
+PrefixPaths == {"unknown_prefix", "escaped_prefix", "root", "no_path"}          \* decided by the HTTP handler
 DeepPaths == {"valid", "unknown_service", "extra_segments"}   \* decided behind the path prefix
 XmlBroken == {"truncated", "garbage", "empty"}
 XmlDoctype == {"doctype_text", "doctype_attr", "external_entity", "external_param", "billion_laughs"}
